@@ -187,7 +187,13 @@ func (ssc *StorageSmartContract) readPoolLockInternal(txn *transaction.Transacti
 			IsMint: transfer.isMint,
 		})
 
-	} // when mint is true, we don't need to do anything but add tokens to the pool, the tokens will be transfered from SC to client when collecting rewards
+	} else {
+		// free-storage tokens are not minted: like the write pool part of a free allocation they are
+		// paid by the transfer's payer, otherwise the pool would owe tokens the contract never received
+		if _, err := transfer.transfer(balances); err != nil {
+			return "", common.NewError("read_pool_lock_failed", err.Error())
+		}
+	}
 
 	var newReadPool = false
 	rp, err := ssc.getReadPool(targetId, balances)
